@@ -78,6 +78,7 @@ static bool gen_c18(uint64_t seed, const std::string &tier, uint64_t i, Plan &p)
       else if (kind == 4) o = std::string("rmx") + std::string(1, '\0') + "Kaccepted" + std::string(1, '\0'); else if (kind == 5) o = std::string("hfail") + std::string(1, '\0') + "Dno" + std::string(1, '\0'); else o = rand_text(r, 200);
       a.set("out", o).set("code", (long long)r.pick(std::vector<int>{0, 0, 100, 111, 99, 1, 255, 71})).set("lat", (long long)r.below(3));
       if (r.chance(0.1)) a.set("crash", true);
+      if (r.chance(0.25)) a.set("linger", (long long)r.range(1, 5));
       ag.push(a);
     }
     p.knobs.set("agents", ag);
